@@ -3,6 +3,7 @@ package main
 import (
 	"fmt"
 	"math/bits"
+	"strconv"
 	"strings"
 )
 
@@ -19,16 +20,38 @@ type Term struct {
 	def  bool // defined in solver
 }
 
-var termTab = map[string]*Term{}
+type tkey struct {
+	op         string
+	name       string
+	w, hi, lo  int
+	val        uint64
+	n          int
+	a0, a1, a2 int
+	rest       string
+}
+
+var termTab = map[tkey]*Term{}
 var termList []*Term
+var selMemo = map[[2]int]*Term{}
 
 func mk(op string, w int, val uint64, name string, hi, lo int, args ...*Term) *Term {
-	var sb strings.Builder
-	fmt.Fprintf(&sb, "%s|%d|%d|%s|%d|%d", op, w, val, name, hi, lo)
-	for _, a := range args {
-		fmt.Fprintf(&sb, "|%d", a.id)
+	k := tkey{op: op, name: name, w: w, hi: hi, lo: lo, val: val, n: len(args), a0: -1, a1: -1, a2: -1}
+	switch len(args) {
+	case 0:
+	case 1:
+		k.a0 = args[0].id
+	case 2:
+		k.a0, k.a1 = args[0].id, args[1].id
+	case 3:
+		k.a0, k.a1, k.a2 = args[0].id, args[1].id, args[2].id
+	default:
+		var sb strings.Builder
+		for _, a := range args {
+			sb.WriteString(strconv.Itoa(a.id))
+			sb.WriteByte(',')
+		}
+		k.rest = sb.String()
 	}
-	k := sb.String()
 	if t, ok := termTab[k]; ok {
 		return t
 	}
@@ -313,6 +336,16 @@ func Concat(a, b *Term) *Term {
 
 // Select with read-over-write simplification.
 func Select(arr, idx *Term) *Term {
+	mkey := [2]int{arr.id, idx.id}
+	if r, ok := selMemo[mkey]; ok {
+		return r
+	}
+	r := select1(arr, idx)
+	selMemo[mkey] = r
+	return r
+}
+
+func select1(arr, idx *Term) *Term {
 	for {
 		switch arr.op {
 		case "store":
